@@ -74,7 +74,12 @@ func c21Files(res *zoekt.SearchResult) map[string]string {
 	out := map[string]string{}
 	for i := range res.Files {
 		f := &res.Files[i]
-		out[f.Repository+"\x00"+f.FileName] = gen.CanonFile(f)
+		k := f.Repository + "\x00" + f.FileName
+		if _, dup := out[k]; dup {
+			// a file returned twice: surfaces as a "new file" in the subset check
+			out["DUP:"+k] = gen.CanonFile(f)
+		}
+		out[k] = gen.CanonFile(f)
 	}
 	return out
 }
@@ -88,6 +93,13 @@ func c21Queries() []query.Q {
 	qs = append(qs, res...)
 	for _, f := range []query.Q{&query.Branch{Pattern: "dev"}, query.NewRepoIDs(1, 3), &query.Language{Language: "Go"}, query.NewSingleBranchesRepos("HEAD", 1, 3)} {
 		qs = append(qs, f, &query.And{Children: []query.Q{f, text[0]}}, &query.Or{Children: []query.Q{f, text[2]}}, &query.And{Children: []query.Q{&query.Not{Child: f}, text[6]}})
+	}
+	// match trees that do not advance by themselves (negation at the root, or below Or/And without an
+	// advancing sibling): document iteration is driven by the search loop alone
+	nots := []query.Q{&query.Not{Child: text[1]}, &query.Not{Child: text[5]}, &query.Not{Child: &query.Language{Language: "Go"}}, &query.Not{Child: res[0]}}
+	for i, n := range nots {
+		qs = append(qs, n, &query.Or{Children: []query.Q{n, text[2]}}, &query.And{Children: []query.Q{n, nots[(i+1)%len(nots)]}},
+			&query.Or{Children: []query.Q{&query.Branch{Pattern: "dev"}, n}}, &query.And{Children: []query.Q{n, &query.Branch{Pattern: "HEAD"}}})
 	}
 	return qs
 }
@@ -394,5 +406,5 @@ func TestVerifC21(t *testing.T) {
 	r.Add("transitions", transitions)
 	r.Add("traces_validated_against_impl", int(r.Evals()))
 	r.Assume("'promptly' is measured in steps: after the poll/hook that reports cancellation no further document (index level) and no further shard (directory level, GOMAXPROCS=1) is evaluated; no wall-clock oracle; deadlines are cancellation at a hook")
-	r.Finish("index level: 35 queries × line/chunk × ShardMaxMatchCount {0,1,2,1000} × ShardRepoMaxMatchCount {0,1,2} and cancellation at EVERY context poll of the unlimited run; directory level (3 shards incl. a compound one, instrumented shard wrappers): ShardMax {0,1,2} × RepoMax {0,1} × TotalMax {0,1,3} × Search/StreamSearch and cancellation at every shard-search start and every Send; oracle: returned files ⊆ unlimited files and each kept file identical (matches, branches); non-trivial = files were actually removed")
+	r.Finish("index level: 55 queries (incl. negations at the root and under Or/And) × line/chunk × ShardMaxMatchCount {0,1,2,1000} × ShardRepoMaxMatchCount {0,1,2} and cancellation at EVERY context poll of the unlimited run; directory level (3 shards incl. a compound one, instrumented shard wrappers): ShardMax {0,1,2} × RepoMax {0,1} × TotalMax {0,1,3} × Search/StreamSearch and cancellation at every shard-search start and every Send; oracle: returned files ⊆ unlimited files and each kept file identical (matches, branches); non-trivial = files were actually removed")
 }
